@@ -231,6 +231,12 @@ def make_request(rnd, ctx, J, CH):
     elif fm == 'per_kb':
         req['fee_per_kb'] = int(rnd.choice([fmin * 3, fmin * 20]))
     req['n_change'] = rnd.choice([1, 1, 0, 2, 3, 5])
+    if min_confirms >= 3 and kind in ('send_to', 'send') and rnd.random() < 0.6:
+        # deep confirmation requirement together with the automatic-fee / random-change path (fee re-estimation)
+        req['fee_mode'] = 'auto'
+        req.pop('fee', None)
+        req.pop('expect_refusal', None)
+        req['n_change'] = 0
     if kind == 'create_inputs' and spendable:
         ops = sorted(spendable)
         rnd.shuffle(ops)
